@@ -339,6 +339,36 @@ def run(facts, tr, rep):
                    "exit is reachable from the catch_unwind result without asking the iterator again)" if (nexts and not bad)
                    else "an exit (%s at %s) is reachable after catch_unwind without visiting the remaining listeners: a listener's panic "
                    "can escape or cut the notification short" % ("return" if rets else "diverging call / re-raised panic", lg.where(bad[0]) if bad else "-"))
+    # listeners run outside blocking locks: no std::sync guard is live where a layer notifies its listeners.  A listener is
+    # user code; with a blocking, non-reentrant lock held around it, a listener that touches the same layer (or merely waits
+    # for another request through it) stops that request and every other one that needs the lock: what the listener does then
+    # decides whether calls complete.  Judged on the inlined view (the notification may sit in a helper called with the lock held).
+    nemit = 0
+    fi_ = facts.inl
+    for b in fi_.all_bodies():
+        if fi_.absorbed(b) or b.crate.name == "tower_resilience_core":
+            continue
+        g = graph(b)
+        held = []
+        n_here = 0
+        for c in g.calls():
+            if c.name == "emit" and "EventListeners" in (c.path or ""):
+                n_here += 1
+                for l in range(len(b.locals)):
+                    ts = b.local_ty(l)["s"]
+                    if ts.startswith(("std::sync::MutexGuard<", "std::sync::RwLockReadGuard<", "std::sync::RwLockWriteGuard<",
+                                      "std::sync::poison::mutex::MutexGuard<", "std::sync::poison::rwlock::RwLockReadGuard<", "std::sync::poison::rwlock::RwLockWriteGuard<",
+                                      "parking_lot::")) and "Guard<" in ts and g.maybe_init(l, c.bb):
+                        held.append((c, l, ts))
+        if not n_here:
+            continue
+        nemit += n_here
+        rep.saw(b)
+        rep.ob("C20.LISTEN-NOLOCK", site_key(b, "emit-outside-locks"), not held, held[0][0].where() if held else "%s:%d" % (b.span["file"], b.span["line"]),
+               "%d notification site(s): no blocking lock guard is live while listeners run" % n_here if not held else
+               "listeners are notified while the blocking lock guard `%s` (%s) is held: a listener that touches the same layer, or waits for "
+               "another request through it, blocks every call that needs this lock" % (b.local_name(held[0][1]) or "_%d" % held[0][1], held[0][2][:60]))
+    rep.floor("C20.emit-sites", nemit, 40)
     # emit (public anchor) returns unit
     emit = [b for b in facts.crates["tower_resilience_core"].bodies if b.name == "emit" and b.def_.startswith("tower_resilience_core::events::EventListeners")]
     if not emit:
